@@ -24,6 +24,25 @@ impl Canon for bool {
         self.to_string()
     }
 }
+/// a derived newtype whose container-level `and_then` refuses odd numbers with an error that has no span
+/// of its own: whatever reads the value has to come back with the item's
+#[derive(Debug, darling::FromMeta)]
+#[darling(and_then = "NtEven::check")]
+pub struct NtEven(u8);
+impl NtEven {
+    fn check(self) -> darling::Result<Self> {
+        if self.0 % 2 == 1 {
+            Err(darling::Error::custom("an odd number"))
+        } else {
+            Ok(self)
+        }
+    }
+}
+impl Canon for NtEven {
+    fn canon(&self) -> String {
+        format!("NtEven({})", self.0)
+    }
+}
 impl Canon for darling::util::Flag {
     fn canon(&self) -> String {
         format!("Flag({})", self.is_present())
@@ -129,6 +148,7 @@ macro_rules! all_values {
         inst!($out, $kk, $kt, "Expr", syn::Expr);
         inst!($out, $kk, $kt, "Map", HashMap<String, String>);
         inst!($out, $kk, $kt, "Flag", darling::util::Flag);
+        inst!($out, $kk, $kt, "NtEven", NtEven);
     };
     (btree $out:ident, $kk:expr, $kt:ty) => {
         inst!(btree $out, $kk, $kt, "bool", bool);
@@ -137,6 +157,7 @@ macro_rules! all_values {
         inst!(btree $out, $kk, $kt, "Expr", syn::Expr);
         inst!(btree $out, $kk, $kt, "Map", HashMap<String, String>);
         inst!(btree $out, $kk, $kt, "Flag", darling::util::Flag);
+        inst!(btree $out, $kk, $kt, "NtEven", NtEven);
     };
 }
 
@@ -531,7 +552,7 @@ pub fn run(args: &Args) -> i32 {
 fn outcome(min: u64) -> Outcome {
     Outcome {
         level: "exploration",
-        rule: if SPANS_ONLY.load(std::sync::atomic::Ordering::Relaxed) { "C03 part: the same item lists and 30 map instantiations as C14; judged here: every error leaf about an item of the list (repeated key, unconvertible key, unconvertible value) carries an explicit span inside that very item; so does the leaf for a bare literal item. Distinct = as in C14.".to_string() } else { "random item lists (0..12 items, key alphabets of 1..4 names with ::-leading / multi-segment / raw spellings, literal items, 14 value forms) parsed from source text and converted by all 30 map instantiations (HashMap x {String, Ident, Path} keys, BTreeMap x {String, Ident} keys, values bool / u8 / String / Expr / nested map / Flag); success, entries, leaf count and per-item leaf attribution (by span) are compared with a model whose key conversion is re-implemented and whose value acceptance is V::from_meta on the same item; Hash/BTree agreement checked per input. Distinct = (instantiation, length bucket, #literals, #repeats, #bad keys, #bad values, outcome).".to_string() },
+        rule: if SPANS_ONLY.load(std::sync::atomic::Ordering::Relaxed) { "C03 part: the same item lists and 35 map instantiations as C14; judged here: every error leaf about an item of the list (repeated key, unconvertible key, unconvertible value) carries an explicit span inside that very item; so does the leaf for a bare literal item. Distinct = as in C14.".to_string() } else { "random item lists (0..12 items, key alphabets of 1..4 names with ::-leading / multi-segment / raw spellings, literal items, 14 value forms) parsed from source text and converted by all 35 map instantiations (HashMap x {String, Ident, Path} keys, BTreeMap x {String, Ident} keys, values bool / u8 / String / Expr / nested map / Flag / a derived newtype with `and_then`); success, entries, leaf count and per-item leaf attribution (by span) are compared with a model whose key conversion is re-implemented and whose value acceptance is V::from_meta on the same item; Hash/BTree agreement checked per input. Distinct = (instantiation, length bucket, #literals, #repeats, #bad keys, #bad values, outcome).".to_string() },
         assumptions: vec!["V::from_meta on the same item is the reference for value acceptance (the scalar conversions themselves are C11/C13's subject)".into()],
         min_nontrivial: min,
         exhaustive: None,
